@@ -3,6 +3,7 @@
 in a scratch worktree: the suite passes with the patch, the demonstration fails with it 3/3 and passes without it 3/3."""
 import json, os, re, shutil, subprocess, sys
 ID, M, NEW = sys.argv[1], sys.argv[2], sys.argv[3]
+RACE = len(sys.argv) > 4 and sys.argv[4] == "race"     # the demonstration needs the race detector
 src = "/tmp/agents2/%s/_out/%s" % (ID, M)
 dst = "/verif/seeded/%s-%s" % (ID, NEW)
 wt = "/tmp/seedchk/%s-%s" % (ID, NEW)
@@ -34,7 +35,7 @@ try:
     res["suite_with_patch"] = "pass" if rc == 0 else "FAIL"
     demo = os.path.join(wt, sub, "zz_seed_demo_test.go")
     shutil.copy(src + "/demo_test.go", demo)
-    cmd = "timeout 300 go test -vet=off -count=1 -timeout 200s -run '%s' %s" % (runre, "./" + sub if sub else ".")
+    cmd = "%stimeout 300 go test %s-vet=off -count=1 -timeout 200s -run '%s' %s" % ("CGO_ENABLED=1 " if RACE else "", "-race " if RACE else "", runre, "./" + sub if sub else ".")
     fails = 0
     for i in range(3):
         rc, out = sh(cmd, cwd=wt)
